@@ -595,8 +595,16 @@ def r01_7(prog: Program, rep):
         if ser is None:
             raise AnalysisError(f"{cname}._serialize not found")
         seq = []
-        for c in sorted([c for c in ast.walk(ser.node) if isinstance(c, ast.Call) and isinstance(c.func, ast.Attribute)
-                         and c.func.attr in ("append", "extend", "insert") and isinstance(c.func.value, ast.Name)], key=lambda c: (c.lineno, c.col_offset)):
+        # emission events in program order: the literal the list starts from, then append / extend / insert calls
+        events = []
+        for x in ast.walk(ser.node):
+            if isinstance(x, (ast.Assign, ast.AnnAssign)) and isinstance(getattr(x, "value", None), ast.List) and x.value.elts:
+                for e in x.value.elts:
+                    events.append((e.lineno, e.col_offset, "append", [e]))
+            elif isinstance(x, ast.Call) and isinstance(x.func, ast.Attribute) and x.func.attr in ("append", "extend", "insert") and isinstance(x.func.value, ast.Name):
+                events.append((x.lineno, x.col_offset, x.func.attr, list(x.args)))
+        for _ln, _col, kind_, args_ in sorted(events, key=lambda t: (t[0], t[1])):
+            c = type("E", (), {"args": args_, "func": type("F", (), {"attr": kind_})()})()
             consts = [x.id for a in c.args for x in ast.walk(a) if isinstance(x, ast.Name) and x.id.endswith("_HEADER")]
             if consts:
                 tag = consts[0]
